@@ -175,6 +175,14 @@ Theorem C09_new_parser :
 Proof. exact new_parser_levels. Qed.
 Print Assumptions C09_new_parser.
 
+(* sysloginput's composite parser (parser + extraction transforms) with extractions that keep the record
+   is the parser itself; in general it never panics and never changes the counters. *)
+Theorem C09_composite_passthrough :
+  forall extract cfg cnt input,
+  (forall r, extract r = Some r) -> composite_parse extract cfg cnt input = parse cfg cnt input.
+Proof. exact composite_passthrough_lemma. Qed.
+Print Assumptions C09_composite_passthrough.
+
 (* 6. UTF-8 helper theorems (reused by C15 truncate). *)
 
 (* Go's decoder accepts exactly RFC 3629: utf8.Valid <-> concatenation of encoded scalar values *)
